@@ -91,8 +91,6 @@ fcppt::container::tree::object<T> &fcppt::container::tree::object<T>::operator=(
 
   children_ = this->move_children(std::move(_other.children_));
 
-  std::swap(parent_, _other.parent_);
-
   return *this;
 }
 
